@@ -86,6 +86,11 @@ func i3WebLine(r *rng, names []string) string {
 		return pick(r, i3Patterns) + "$domain=" + genList(r, append(append([]string{}, names...), "example.*", "site.*"), 3, r.chance(1, 4), "|") +
 			pick(r, []string{"", "", ",important", ",script"})
 	case 8, 9, 10, 11: // document-level exception on a site (decides cosmetic options and the referrer flags)
+		if r.chance(1, 4) {
+			// R2: stray commas in the modifier list (empty items are dropped by the parser)
+			return "@@" + site() + "$" + r2JoinStray(r, subsetAtLeastOne(r, i3DocMods, 3))
+		}
+
 		return "@@" + site() + i3Mods(r, i3DocMods, 3)
 	case 12: // plain exception
 		return "@@" + pick(r, []string{site(), pick(r, i3Patterns)}) + i3Mods(r, []string{"important", "script", "domain=" + pick(r, names)}, 2)
@@ -163,6 +168,49 @@ func i3Build(r *rng, names []string, line func(*rng, []string) string) *i1Scenar
 		sc.all = append(sc.all, t)
 		l := r.n(nLists)
 		bodies[l] = append(bodies[l], t)
+	}
+	// R2: withdrawn rules -- a network rule of the scenario (or a fresh document-level exception about the same names) gets
+	// its `$badfilter` twin, in front of it or behind it, in the same list or in another one; the pair must not change what
+	// the OTHER rules decide, wherever it comes in the engine's match order
+	for k := r.n(3); k > 0 && r.chance(2, 3); k-- {
+		x := strings.TrimSpace(pick(r, sc.all))
+		if r.chance(1, 3) {
+			x = "@@||" + pick(r, names) + "^" + i3Mods(r, i3DocMods, 2)
+		}
+		f, err := rules.NewRule(x, 1)
+		nf, ok := f.(*rules.NetworkRule)
+		if err != nil || !ok || nf.IsOptionEnabled(rules.OptionBadfilter) {
+			continue
+		}
+		twin := x + "$badfilter"
+		if _, opts, _, perr := rules.VerifParseRuleText(x); perr == nil && opts != "" {
+			twin = x + ",badfilter"
+		}
+		pair := []string{x, twin}
+		if r.chance(1, 3) {
+			pair = []string{twin, x}
+		}
+		if r.chance(1, 2) {
+			// the rule itself is already in a list: add the twin only
+			pair = []string{twin}
+		}
+		for _, t := range pair {
+			l := r.n(nLists)
+			pos := r.n(len(bodies[l]) + 1)
+			bodies[l] = append(bodies[l][:pos:pos], append([]string{t}, bodies[l][pos:]...)...)
+			sc.all = append(sc.all, t)
+		}
+	}
+	for l := range bodies {
+		if r.chance(1, 5) {
+			// R2: a multi-byte first line (UTF-8 byte order mark, non-ASCII title)
+			t := r2FirstLineInert(r, names)
+			if r.chance(1, 8) {
+				t = r2FirstLine(r)
+			}
+			bodies[l] = append([]string{t}, bodies[l]...)
+			sc.all = append(sc.all, t)
+		}
 	}
 	var ls []filterlist.RuleList
 	var note []string
